@@ -9,8 +9,12 @@ from __future__ import annotations
 
 import itertools
 import json
+import re
 
 from . import gen_graph, rev_impl
+
+
+REL_RE = re.compile(r"^(?:(.+?)@)?(\w+)?((?:\+|-)\d+)$")
 
 
 def canon_stmts(stmts):
@@ -294,6 +298,19 @@ def judge(ctx, focus, collected, sds):
                 spec_meta.append(("refuse", inp, impl, pt))
                 spec_ops.append({"op": "rev.spec.targets", **h, "ident": c["target"]})
                 spec_meta.append(("dtarget", inp, impl, pt))
+                # relative targets: `rev-N` / `-N` name the revision exactly N down_revision links below
+                mm = REL_RE.match(c["target"])
+                if mm and "steps" in impl and int(mm.group(3)) < 0:
+                    n = -int(mm.group(3))
+                    sym = mm.group(2)
+                    ids_ = [r["id"] for r in c["revs"]]
+                    start = sym if sym in ids_ else (c["rows"][0] if sym is None and mm.group(1) is None and len(c["rows"]) == 1 else None)
+                    if start is not None:
+                        op = {"op": "rev.spec.steps", **h, "n": n, "from": start}
+                        if pt["target"]:
+                            op["to"] = pt["target"]
+                        spec_ops.append(op)
+                        spec_meta.append(("dsteps", inp, impl, (start, n, pt["target"])))
         elif focus.prop == "C03" and "steps" in impl:
             if impl["steps"]:
                 ctx.nontrivial((cmd, json.dumps(c["revs"], sort_keys=True), tuple(sorted(c["rows"])), tgt))
@@ -345,6 +362,10 @@ def judge(ctx, focus, collected, sds):
                 want = a["targets"][0] if a["targets"] else None
                 if len(a["targets"]) <= 1 and extra["target"] != want:
                     ctx.fail(inp, "target-resolution: downgrade target resolves to %s, documented meaning is %s" % (extra["target"], want), impl=impl, tags=["resolution"])
+            k += 1
+        elif kind == "dsteps":
+            if a.get("holds") is not True:
+                ctx.fail(inp, "target-distance: relative downgrade target %r resolves to %s, which is not exactly %d down_revision links below %s" % (inp["target"], extra[2] or "base", extra[1], extra[0]), impl=impl, tags=["resolution", "distance"])
             k += 1
         elif kind == "trace":
             if impl.get("stepErr") and a.get("startOk"):
